@@ -123,7 +123,7 @@ def _worker_corpus(args: T.Tuple[T.List[str], int, int, bool]) -> T.Dict[str, T.
     pool = [ld.tok(t) for t in ('lparen', 'rparen', 'lbracket', 'rbracket', 'comma', 'colon', 'not', 'in', 'eol', 'endif',
                                 'if', 'else', 'foreach', 'endforeach', 'dot', 'assign', 'plus', 'dash', 'questionmark',
                                 'lcurl', 'rcurl', 'and', 'or', 'equal', 'elif', 'plusassign')] + \
-           [ld.tok('id', s='x'), ld.tok('number', n=3), ld.tok('string', s='s', cs=[120])]
+           [ld.tok('id', s='x', cs=[120]), ld.tok('number', n=3), ld.tok('string', s='s', cs=[120])]
     for fn in files:
         try:
             text = open(fn, encoding='utf-8').read()
@@ -154,7 +154,7 @@ def _worker_soup(args: T.Tuple[int, int, int, bool]) -> T.Dict[str, T.Any]:
     mods = ld.load_modules()
     alpha = ld.Alphabet()
     pool = [ld.tok(t) for t in ld.SYMTEXT] + [ld.tok(t) for t in sorted(ld.KEYWORDS)] + \
-           [ld.tok('id', s=s) for s in ('a', 'b', 'f', 'x_1')] + [ld.tok('number', n=n) for n in (0, 1, 7, 42)] + \
+           [ld.tok('id', s=s, cs=[ord(c) for c in s]) for s in ('a', 'b', 'f', 'x_1')] + [ld.tok('number', n=n) for n in (0, 1, 7, 42)] + \
            [ld.tok('string', s=fl, cs=cs) for fl in ('s', 'ms', 'fs', 'mfs') for cs in ([], [97], [97, 32, 98], [64, 48, 64])]
     # weights: make well-formed fragments likely
     cases = []
@@ -165,9 +165,9 @@ def _worker_soup(args: T.Tuple[int, int, int, bool]) -> T.Dict[str, T.Any]:
         while len(toks) < n:
             r = rnd.random()
             if r < 0.25:
-                toks += [ld.tok('id', s=rnd.choice('abf')), ld.tok('lparen'), rnd.choice(pool), ld.tok('rparen')]
+                toks += [ld.ident(rnd.choice('abf')), ld.tok('lparen'), rnd.choice(pool), ld.tok('rparen')]
             elif r < 0.4:
-                toks += [ld.tok('id', s='x'), ld.tok('assign'), ld.tok('lbracket'), rnd.choice(pool), ld.tok('comma'),
+                toks += [ld.ident('x'), ld.tok('assign'), ld.tok('lbracket'), rnd.choice(pool), ld.tok('comma'),
                          rnd.choice(pool), ld.tok('rbracket'), ld.tok('eol')]
             elif r < 0.5:
                 toks += [ld.tok('if'), rnd.choice(pool), ld.tok('eol'), rnd.choice(pool), ld.tok('eol'), ld.tok('endif'), ld.tok('eol')]
